@@ -310,6 +310,9 @@ def check(prop, tier):
             failed_merges(v, tier, tag)
         if prop == "C12" and not v.violations:
             hints_after_crash(v, tier, tag)
+        if prop in ("C02", "C12", "C19") and not v.violations:
+            import system
+            system.at_quiescence(v, prop, tier, tag)
         if prop == "C13" and not v.violations:
             reclaim_after_crash(v, tier, tag)
         if prop in ("C01", "C02", "C05", "C12", "C13") and not v.violations:
@@ -345,6 +348,17 @@ def check(prop, tier):
 def replay(prop, path):
     """Re-execute the behaviour of a replay file against the current tree and judge it again."""
     rp = json.load(open(path))
+    if "scenario" in rp:
+        # a concurrent run judged at quiescence: the runs are repeated with the recorded seed (histories of concurrent
+        # runs differ from run to run; the replay says whether the violation shows again)
+        import system
+        os.environ["VERIF_SEED"] = str(rp.get("seed", 1))
+        v = Verdict(prop, "quick")
+        build_harness()
+        system.at_quiescence(v, prop, "quick", f"replay-{prop}-{os.getpid()}")
+        v.cov["traces_validated_against_impl"] = v.cov.get("concurrent_runs_judged_at_quiescence", 0)
+        v.cov["samples"] = [rp.get("scenario", {}).get("input", {})]
+        return v.finish()
     if rp.get("mode") in ("fault", "crash", "power"):
         # a run with a failed call / a kill (C05 failed merges, the under-faults and after-crash parts): replayed by the fs-call machinery
         import fscalls
